@@ -295,7 +295,7 @@ func features(t *Trace) (cycleThroughSub bool, innerInts bool, beforeAfterStart 
 // Main is the entry point of the C05 and C06 check binaries.
 func Main(prop string) {
 	c := harness.Init(prop)
-	c.Res.Rule = "history = program (all small flat shapes in Pregel / all-predecessor mode - the Workflow-mode histories are run by the Engine-S part -; curated nested graphs incl. cycles through a sub-graph node and a sub-graph in a sub-graph; nodes that ask for interrupt-and-rerun) x every set of <=2 interrupt-before/after points per nesting level x every sequence of branch outcomes x resume paradigm pattern (all Invoke / all Stream / alternating) x with/without checkpoint id x with/without state modifier; every history is executed call by call on the implementation through a byte-only in-memory store until the run completes. Non-trivial = history with >= 1 interrupt actually taken; distinct = distinct (program, points, script, pattern)."
+	c.Res.Rule = "history = program (all small flat shapes in Pregel / all-predecessor mode - the Workflow-mode histories are run by the Engine-S part -; curated nested graphs incl. cycles through a sub-graph node and a sub-graph in a sub-graph; nodes that ask for interrupt-and-rerun) x every set of <=2 interrupt-before/after points per nesting level x every sequence of branch outcomes x resume paradigm pattern (all Invoke / all Stream / alternating) x with/without checkpoint id x with/without state modifier; plus typed histories: 11 curated graphs over {int, string, map[string]any} whose input and output types differ (pass-throughs typed from either side, keyed nodes, START fan-in, a nested graph) x every set of <= 2 interrupt points per level x the paradigm patterns, judged against the uninterrupted run of the same graph; every history is executed call by call on the implementation through a byte-only in-memory store until the run completes. Non-trivial = history with >= 1 interrupt actually taken; distinct = distinct (program, points, script, pattern)."
 	c.Res.Assumptions = []string{
 		"deterministic node functions; nodes that ask for a re-run rebuild their input from graph state through a state pre-handler (as the statement presupposes)",
 		"histories whose uninterrupted model run fails (step limit, merge conflict) are only required to terminate",
@@ -308,6 +308,15 @@ func Main(prop string) {
 	quick := c.Quick()
 
 	if v := c.LoadReplay(); v != nil {
+		if m, ok := v.Case.(map[string]any); ok && m["graph"] != nil {
+			var tt TypedTrace
+			b, _ := json.Marshal(v.Case)
+			if err := json.Unmarshal(b, &tt); err != nil {
+				c.ReplayExit(v.Scenario, fmt.Errorf("bad replay case: %v", err))
+			}
+			_, err := judgeTyped(c, prop, &tt, true)
+			c.ReplayExit(v.Scenario, err)
+		}
 		var t Trace
 		b, _ := json.Marshal(v.Case)
 		if err := json.Unmarshal(b, &t); err != nil {
@@ -339,7 +348,48 @@ func Main(prop string) {
 			}
 		})
 	}
+	// typed histories (lib/intr/typed.go): graphs whose edges carry different types
+	typedTraces(func(t *TypedTrace) {
+		if !c.Mine("typed/"+t.Graph) || c.TooManyViolations() || c.TimeUp() {
+			return
+		}
+		sig, err := judgeTyped(c, prop, t, false)
+		if err != nil {
+			c.Violate(harness.Violation{Scenario: t.String(), Signature: sig, Case: t, Msg: err.Error()})
+		}
+	})
 	c.Finish()
+}
+
+func judgeTyped(c *harness.Ctx, prop string, t *TypedTrace, verbose bool) (string, error) {
+	var res *typedResult
+	var rerr error
+	gerr := c.Guard(t.String(), t, 120*time.Second, func() error {
+		res, rerr = RunTyped(t)
+		return nil
+	})
+	if gerr != nil {
+		return "typed:panic-or-hang", gerr
+	}
+	if rerr != nil {
+		return "typed:harness", rerr
+	}
+	c.Res.Evaluations++
+	c.Res.Transitions += int64(len(res.Calls))
+	c.StateStr(t.String())
+	if len(res.Calls) > 1 {
+		c.Res.Nontrivial++
+	}
+	if verbose {
+		fmt.Println(res.summary())
+	}
+	sig, err := JudgeTyped(prop, t, res)
+	if err != nil {
+		return sig, err
+	}
+	c.Outcome(fmt.Sprintf("typed-%d-interrupts", len(res.Calls)-1))
+	c.Res.Validated++
+	return "", nil
 }
 
 func judge(c *harness.Ctx, prop string, t *Trace, verbose bool) (string, error) {
